@@ -361,14 +361,14 @@ def oracle_blocks(blocks):
     for b in blocks:
         if b["post"] != b["pre"]:
             return "configuration after the block differs from the one before it (exit: %s): before %s after %s" % (
-                b["exit"], b["pre"], b["post"])
+                b["exit"], b["pre"], b["post"]), b
         rej = expect_reject(b["mgr"], b["spec"])
         if b["in"] is None:
             if rej is None or b["exit"] != "construct-raised:" + rej:
-                return "manager construction %s: %s (expected %s)" % (b["spec"], b["exit"], rej or "success")
+                return "manager construction %s: %s (expected %s)" % (b["spec"], b["exit"], rej or "success"), b
             continue
         if rej is not None:
-            return "a construction that must be refused (%s) was accepted: %s" % (rej, b["spec"])
+            return "a construction that must be refused (%s) was accepted: %s" % (rej, b["spec"]), b
         exp = dict(b["pre"])
         for k, v in eff_spec(b["mgr"], b["spec"]).items():
             if k == "backend":
@@ -377,8 +377,8 @@ def oracle_blocks(blocks):
             else:
                 exp[k] = v
         if b["in"] != exp:
-            return "inside the block the configuration is %s, expected %s" % (b["in"], exp)
-    return None
+            return "inside the block the configuration is %s, expected %s" % (b["in"], exp), b
+    return None, None
 
 
 def queries_in_order(p, out):
@@ -647,9 +647,9 @@ def judge_case(c, r):
     for t, prog in enumerate(c["threads"]):
         if r["final"][t] != {}:
             out.append(("thread %d ends with a non-default configuration %s" % (t, r["final"][t]), None, {"thread": t}))
-        bad = oracle_blocks(r["blocks"][t])
+        bad, blk = oracle_blocks(r["blocks"][t])
         if bad:
-            out.append((bad, None, {"thread": t}))
+            out.append((bad, None, {"thread": t, "block": {"mgr": blk["mgr"], "spec": blk["spec"], "exit": blk["exit"]}}))
         for b in r["blocks"][t]:
             if b["depth"] == 0 and b["pre"] != {}:
                 out.append(("thread %d sees settings of another thread before its outermost block: %s" % (t, b["pre"]),
@@ -675,6 +675,17 @@ def judge_case(c, r):
                     "thread-local configuration is %s, the enclosing blocks give %s" % (res["config"], exp), None)
             if bad:
                 out.append((bad, key, {"thread": t, "query": q, "stack": stack, "result": res}))
+    return out
+
+
+def minimal_block_replay(detail, dk=None):
+    """one thread: the offending block alone (left the way it was left), then a look at the configuration"""
+    b_ = detail["block"]
+    body = ["raise"] if b_["exit"] == "exception" else ["skip"]
+    w = ["with", b_["mgr"], b_["spec"], body] + (["gen"] if b_["exit"] == "generator-close" else [])
+    out = {"threads": [["seq", ["try", w], ["seq", ["obs", ["config"]], ["obs", ["parallel", {}]]]]], "schedule": []}
+    if dk:
+        out["default_backend"] = dk
     return out
 
 
@@ -893,7 +904,15 @@ def run(ctx):
 
     # ---- decide
     for bad, c, detail in problems[:3]:
-        rep = minimal_replay(detail, c.get("default_backend")) if detail and "query" in detail else c
+        rep = c
+        if detail and "query" in detail:
+            small = minimal_replay(detail, c.get("default_backend"))
+            if judge_case(small, run_impl_cases([small], nproc=1)[0]):   # self-contained? else keep the whole history
+                rep = small
+        if detail and "block" in detail:
+            small = minimal_block_replay(detail, c.get("default_backend"))
+            if judge_case(small, run_impl_cases([small], nproc=1)[0]):
+                rep = small
         ctx.violation(bad, {"kind": "oracle", "case": rep, "detail": detail}, True)
     if disagreements and not problems:
         hit = search_failing(ctx, 600 if quick else 3000)
